@@ -155,6 +155,11 @@ class RW:
                 w = s.bvwidth(a); x = s.rw(a)
                 if not w: raise Unsupported('to_fp width? ' + show(a)[:80])
                 return ['to_real', ['ite', ['bvslt', x, ['_', 'bv0', str(w)]], ['-', ['bv2nat', x], str(1 << w)], ['bv2nat', x]]]
+            if isinstance(h[1], str) and h[1] in ('fp.to_sbv', 'fp.to_ubv') and len(e) == 3:
+                # C cast double -> integer: truncation toward zero (CBMC emits roundTowardZero); value assumed in range
+                x = s.rw(e[2]); w = h[2]
+                tr = ['ite', ['>=', x, '0.0'], ['to_int', x], ['-', ['to_int', ['-', x]]]]
+                return [['_', 'int2bv', w], tr]
             if isinstance(h[1], str) and h[1].startswith('fp.to_'): raise Unsupported('unsupported ' + h[1])
         return [s.rw(x) for x in e]
 
@@ -235,6 +240,57 @@ def slice_vc(exprs, witness=False):
             else: dropped.append(e)
         elif e[0] in ('declare-datatypes', 'declare-sort', 'define-sort'): kept.append(e); dropped.append(e)
     return kept, dropped, nb, ' & '.join(show(g[1])[:80] for g in goals[:3])
+
+
+def components(exprs):
+    """split a VC (list of declare/define/assert) into independent sub-problems: connected components of the asserts under
+    'shares a free symbol (after unfolding definitions)'. The conjunction is sat iff every component is sat."""
+    defs = {e[1]: e for e in exprs if e and e[0] == 'define-fun'}
+    decls = {e[1]: e for e in exprs if e and e[0] == 'declare-fun'}
+    def syms(e, acc):
+        st = [e]
+        while st:
+            x = st.pop()
+            if isinstance(x, str):
+                if x in defs or x in decls: acc.add(x)
+            else: st.extend(x)
+        return acc
+    memo = {}
+    def closure(c0):
+        work = set(c0); cone = set()
+        while work:
+            x = work.pop()
+            if x in cone: continue
+            cone.add(x)
+            if x in defs:
+                if x not in memo: memo[x] = syms(defs[x][4], set())
+                work |= memo[x] - cone
+        return cone
+    asserts = [e for e in exprs if e and e[0] == 'assert']
+    parent = {}
+    def find(x):
+        while parent.setdefault(x, x) != x:
+            parent[x] = parent[parent[x]]; x = parent[x]
+        return x
+    acl = []
+    for i, a in enumerate(asserts):
+        cl = closure(syms(a[1], set())); acl.append(cl)
+        # only DECLARED (free) symbols connect asserts; defined symbols are macros
+        free = [x for x in cl if x in decls]
+        key = ('a', i); find(key)
+        for x in free: parent[find(('s', x))] = find(key)
+    groups = {}
+    for i, a in enumerate(asserts): groups.setdefault(find(('a', i)), []).append(i)
+    out = []
+    for g in groups.values():
+        cone = set()
+        for i in g: cone |= acl[i]
+        body = [e for e in exprs if (e[0] in ('declare-fun', 'define-fun') and e[1] in cone) or e[0] in ('declare-datatypes', 'declare-sort', 'define-sort')]
+        body += [asserts[i] for i in g]
+        nb = sum(1 for e in body if e[0] in ('declare-fun',) and ('BitVec' in show(e[3]) or 'Array' in show(e[3])))
+        nr = sum(1 for e in body if e[0] in ('declare-fun',) and 'Real' in show(e[3]))
+        out.append((body, nb, nr))
+    return out
 
 
 TACTICS = {
@@ -378,8 +434,17 @@ def run_real(ctx, ob, extra_defs=None):
         want = [s for s in insyms.values() if s in keptnames]
         body = '\n'.join(show(k) for k in kept)
         order = opts.get('tactics', ('nlsat', 'default') if nb == 0 else ('default', 'nlsat'))
-        if role == 'witness': order = ('default', 'nlsat')
-        v, who, st, model, log = solve(body, vc[:-5], to if role != 'witness' else min(to, 60), order, want)
+        if role == 'witness':
+            # reachability: every independent component of the assumptions must be satisfiable
+            v, who, st, model, log = 'sat', 'components', 0.0, {}, []
+            for ci, (cb, cnb, cnr) in enumerate(components(kept)):
+                if not any(x[0] == 'assert' for x in cb): continue
+                cv, cw, cst, _, clog = solve('\n'.join(show(k) for k in cb), vc[:-5] + f'_w{ci}', min(to, 60), ('default', 'nlsat') if cnb else ('nlsat', 'default'))
+                st += cst; log += clog
+                if cv == 'unsat': v = 'unsat'; break
+                if cv != 'sat': v = 'undecided'
+        else:
+            v, who, st, model, log = solve(body, vc[:-5], to, order, want)
         solver_secs += st
         if v == 'sat' and dropped and any(d[0] == 'assert' for d in dropped):
             # the sliced-away assumptions share no symbol with the cone: the whole VC is sat iff they are sat too
